@@ -569,7 +569,14 @@ func genForge(r *rand.Rand, id string, size int, total int) []string {
 			nForged++
 			q := members[g.pick(len(members))]
 			route := []string{"sync", "pub", "dc"}[g.pick(3)]
-			switch g.pick(4) {
+			shape := g.pick(4)
+			// a head that Sync's access check refuses may name a block that nobody serves
+			refusedAtSync := map[string]bool{"copiedid": true, "copiedblock": true, "othertype": true, "selfsigned": true,
+				"mut-identpk": true, "mut-identsig": true, "mut-identtype": true, "mut-identsigpk": true, "mut-key": true}
+			if (refusedAtSync[rec] || (rec == "own" && !isWriter[att])) && shape < 3 && g.pick(3) == 0 {
+				g.add("dropblock @last")
+			}
+			switch shape {
 			case 0: // alone
 				g.add("inject %d heads=@last route=%s from=%d", q, route, att)
 			case 1: // mixed with the valid heads of some member, forged first
